@@ -379,6 +379,21 @@ def finish(prop, args, mod, items, results, replay_bin, known, kmap, t0, seed):
             s = r["sample"][len(r["sample"]) // 2]
             samples.append({"item": item_fields(it), "model": s["m"], "result": s.get("s"), "outcome": s["k"], "paths_of_item": r["paths"]})
 
+    # ---- cross-item assertions of the property module (e.g. C05 growth) ----
+    post_info = {}
+    if hasattr(mod, "post_check"):
+        pv, post_info = mod.post_check(results, args.tier)
+        kn = known.get("open", [])
+        for v in pv:
+            hit = [e for e in kn if e.get("post") and e["key"].get("Pattern") == v["item"].get("Pattern") and e["key"].get("API") == v["item"].get("API")]
+            if hit:
+                for e in hit:
+                    known_hits[id(e)] = known_hits.get(id(e), 0) + 1
+            else:
+                violations.append(v)
+            if args.triage is not None:
+                triage.append({"key": v["item"], "pc": "true", "model": v["model"], "msg": v["msg"], "snaps": v.get("snaps"), "native": {"k": "fail"}, "post": True})
+
     # ---- report ----
     os.makedirs(os.path.join(VERIF, "evidence", "violations"), exist_ok=True)
     lines = []
@@ -455,6 +470,8 @@ def finish(prop, args, mod, items, results, replay_bin, known, kmap, t0, seed):
         ],
     }
     ev["coverage"].update(extra)
+    if post_info:
+        ev["coverage"]["post_check"] = post_info
     if not args.no_evidence:
         with open(os.path.join(VERIF, "evidence", prop + ".json"), "w") as f:
             json.dump(ev, f, indent=1)
